@@ -70,6 +70,59 @@ func canon(n *oracle.Node) {
 	}
 }
 
+// canonTies sorts, inside every object, each run of adjacent members with the same name by their
+// serialised value, and nothing else.
+func canonTies(n *oracle.Node) {
+	for _, k := range n.Kids {
+		canonTies(k)
+	}
+	if n.Kind != 'o' {
+		return
+	}
+	for i := 0; i < len(n.Keys); {
+		j := i
+		for j < len(n.Keys) && n.Keys[j] == n.Keys[i] {
+			j++
+		}
+		if j-i > 1 {
+			idx := make([]int, j-i)
+			ser := make([]string, j-i)
+			for k := range idx {
+				idx[k], ser[k] = k, serial(n.Kids[i+k])
+			}
+			sort.SliceStable(idx, func(a, b int) bool { return ser[idx[a]] < ser[idx[b]] })
+			kids := make([]*oracle.Node, j-i)
+			for k, x := range idx {
+				kids[k] = n.Kids[i+x]
+			}
+			copy(n.Kids[i:j], kids)
+		}
+		i = j
+	}
+}
+
+// differKind names a byte difference between two encodings of the same value: a pure reordering
+// of object members (and then whether only members with the same name - distinct Go map keys that
+// coincide once invalid bytes are replaced - changed places), or the class of the first
+// differing byte.
+func differKind(want, got []byte) string {
+	a, e1 := oracle.Parse(got)
+	b, e2 := oracle.Parse(want)
+	if e1 == nil && e2 == nil && !oracle.Equal(a, b) {
+		canonTies(a)
+		canonTies(b)
+		if oracle.Equal(a, b) {
+			return "members-reordered:tied-names"
+		}
+		canon(a)
+		canon(b)
+		if oracle.Equal(a, b) {
+			return "members-reordered"
+		}
+	}
+	return "bytes-differ:" + diffClass(want, got)
+}
+
 func serial(n *oracle.Node) string {
 	var sb strings.Builder
 	var w func(n *oracle.Node)
@@ -224,16 +277,7 @@ func c13Case(c *rt.Ctx, sub int, rels []c13Rel, v reflect.Value, t reflect.Type,
 			continue
 		}
 		if !bytes.Equal(got, want) {
-			kind := "bytes-differ:" + diffClass(want, got)
-			if a, e1 := oracle.Parse(got); e1 == nil {
-				if b, e2 := oracle.Parse(want); e2 == nil && !oracle.Equal(a, b) {
-					canon(a)
-					canon(b)
-					if oracle.Equal(a, b) {
-						kind = "members-reordered"
-					}
-				}
-			}
+			kind := differKind(want, got)
 			c.Violate(rt.Violation{Monitor: "enc-variants", Entry: r.name, Kind: kind, Ctx: featTag(feat),
 				Detail: "variant " + rt.Q(got) + " expected " + rt.Q(want) + " | type " + t.String(), Input: input, Sub: sub})
 		}
@@ -265,7 +309,7 @@ func c13Case(c *rt.Ctx, sub int, rels []c13Rel, v reflect.Value, t reflect.Type,
 		case err != nil:
 			c.Violate(rt.Violation{Monitor: "enc-variants", Entry: "ptr=direct", Kind: "variant-error", Ctx: errClass(err) + " @ " + featTag(feat), Detail: err.Error() + " | type " + t.String(), Input: input, Sub: sub})
 		case !bytes.Equal(pb, plain):
-			c.Violate(rt.Violation{Monitor: "enc-variants", Entry: "ptr=direct", Kind: "bytes-differ:" + diffClass(plain, pb), Ctx: kindClass(t) + " @ " + featTag(feat),
+			c.Violate(rt.Violation{Monitor: "enc-variants", Entry: "ptr=direct", Kind: differKind(plain, pb), Ctx: kindClass(t) + " @ " + featTag(feat),
 				Detail: "Marshal(&v) " + rt.Q(pb) + " Marshal(v) " + rt.Q(plain) + " | type " + t.String(), Input: input, Sub: sub})
 		}
 	}
@@ -284,7 +328,7 @@ func c13Case(c *rt.Ctx, sub int, rels []c13Rel, v reflect.Value, t reflect.Type,
 	case err != nil:
 		c.Violate(rt.Violation{Monitor: "enc-variants", Entry: "iface=direct", Kind: "variant-error", Ctx: errClass(err) + " @ " + featTag(feat), Detail: err.Error() + " | type " + t.String(), Input: input, Sub: sub})
 	case !bytes.Equal(ib, want):
-		c.Violate(rt.Violation{Monitor: "enc-variants", Entry: "iface=direct", Kind: "bytes-differ:" + diffClass(want, ib), Ctx: kindClass(t) + " @ " + featTag(feat),
+		c.Violate(rt.Violation{Monitor: "enc-variants", Entry: "iface=direct", Kind: differKind(want, ib), Ctx: kindClass(t) + " @ " + featTag(feat),
 			Detail: "Marshal([]any{v}) " + rt.Q(ib) + " expected " + rt.Q(want) + " | type " + t.String(), Input: input, Sub: sub})
 	}
 }
